@@ -162,10 +162,12 @@ fn make_fault(rng: &mut Rng, spec: &SpecTable, tier: Tier) -> Option<(Vec<u8>, F
             Some((e.bytes, FaultInfo { class, off: el.off, id: nid, size: el.size.unwrap_or(0) as usize, parent: el.parent.map(|p| e.layout.elems[p].id), before_mandatory: m, before_optional: op }, MaxSz::Default))
         }
         Class::H => {
-            o.unknown_pct = 0;
+            // the master the element is put into has a known size (it holds the element by its byte range, whatever the
+            // element is); the masters around it may have unknown sizes
+            o.unknown_pct = *rng.pick(&[0u64, 0, 50]);
             let mut doc = gen::gen_doc(rng, spec, &o);
             let paths = preorder_paths(&doc);
-            let masters: Vec<&Vec<usize>> = paths.iter().filter(|p| node_ref(&doc, p).is_master()).collect();
+            let masters: Vec<&Vec<usize>> = paths.iter().filter(|p| node_ref(&doc, p).is_master() && !node_ref(&doc, p).enc.unknown).collect();
             if masters.is_empty() {
                 return None;
             }
@@ -185,7 +187,9 @@ fn make_fault(rng: &mut Rng, spec: &SpecTable, tier: Tier) -> Option<(Vec<u8>, F
             let pos = {
                 let p = node_mut(&mut doc, &pp);
                 let Body::Master(cs) = &mut p.body else { unreachable!() };
-                let pos = rng.range(0, cs.len());
+                // (not right after an unknown-size master, which the element might end or be read into)
+                let spots: Vec<usize> = (0..=cs.len()).filter(|&i| i == 0 || !gen::ends_open(&cs[i - 1])).collect();
+                let pos = *rng.pick(&spots);
                 cs.insert(pos, node);
                 pos
             };
@@ -538,7 +542,7 @@ impl Check for C13 {
     }
 
     fn rule(&self) -> &'static str {
-        "One case = specification + bytes + size limit + delivery schedule, parsed under ALL 8 subsets of tolerated error classes. Bytes are either a valid document with exactly one structural fault injected via the layout — (I) id replaced by a well-formed id outside the specification, (H) a leaf inserted under known-size masters that its path does not allow, (O) a child's size inflated past a known-size ancestor, (S) a binary/string element under unknown-size masters declaring more than the limit — or arbitrary byte-faulted / random / header-soup input. Checked: specific error kind and fields at the faulty element after exactly the items before it when the class is not tolerated; no tolerated kind ever reported; no raw tag without InvalidTagIds; strict items a prefix of every tolerant run (inputs starting at a root element). One run in eight lowers the limit on a running iterator (valid document, k elements read, then a limit of 0-3 bytes): the parse must not go on emitting elements with larger payloads (three or more) as if nothing had been set, under every tolerance set. Non-trivial: single-fault case, or at least two strict items. Distinct: FNV-1a fingerprint of bytes + configuration + schedule + fault position."
+        "One case = specification + bytes + size limit + delivery schedule, parsed under ALL 8 subsets of tolerated error classes. Bytes are either a valid document with exactly one structural fault injected via the layout — (I) id replaced by a well-formed id outside the specification, (H) a leaf or empty master inserted into a known-size master (itself possibly inside unknown-size ones) where its path does not allow it, (O) a child's size inflated past a known-size ancestor, (S) a binary/string element under unknown-size masters declaring more than the limit — or arbitrary byte-faulted / random / header-soup input. Checked: specific error kind and fields at the faulty element after exactly the items before it when the class is not tolerated; no tolerated kind ever reported; no raw tag without InvalidTagIds; strict items a prefix of every tolerant run (inputs starting at a root element). One run in eight lowers the limit on a running iterator (valid document, k elements read, then a limit of 0-3 bytes): the parse must not go on emitting elements with larger payloads (three or more) as if nothing had been set, under every tolerance set. Non-trivial: single-fault case, or at least two strict items. Distinct: FNV-1a fingerprint of bytes + configuration + schedule + fault position."
     }
     fn assumptions(&self) -> Vec<&'static str> {
         vec![
